@@ -1,3 +1,5 @@
+//go:build verif_c16
+
 package main
 
 // C16 — sheet-collection operations keep the workbook consistent.
